@@ -21,10 +21,10 @@ def make_setup(prog, sl):
     B = inputs.Bounds(**sl.get('bounds', {}))
     if mode == 'fn':
         return drive.fn_mode(prog, B, variant=sl.get('variant', 'entrait'), opts_only=sl.get('opts_only'), fixed=sl.get('fixed', ()),
-                             name=sl.get('fn_name', 'foo'), trait_name=sl.get('trait_name', 'Foo'))
+                             name=sl.get('fn_name', 'foo'), trait_name=sl.get('trait_name', 'Foo'), meta=sl.get('meta', False))
     if mode == 'mod':
         return drive.mod_mode(prog, B, variant=sl.get('variant', 'entrait'), opts_only=sl.get('opts_only'), fixed=sl.get('fixed', ()),
-                              max_items=sl.get('max_items', 2))
+                              max_items=sl.get('max_items', 2), meta=sl.get('meta', False))
     if mode == 'trait':
         return drive.trait_mode(prog, B, variant=sl.get('variant', 'entrait'), sl=sl)
     if mode == 'impl':
@@ -103,10 +103,10 @@ def run_slice(args):
             O = pr.notes.get('obligations')
             if O is None:
                 continue
-            items = [it for it in O.items if props is None or it[0] in props]
+            items = [(i,) + tuple(it) for i, it in enumerate(O.items) if props is None or it[0] in props]
             res['obligations'] += len(items)
             solver = None
-            for prop, name, f, detail in items:
+            for o_idx, prop, name, f, detail in items:
                 if f is True:
                     continue
                 models = []
@@ -140,7 +140,7 @@ def run_slice(args):
                 else:
                     models = [None]
                 for m in models:
-                    cls = spec.classify_failure(prop, name, pr, m)
+                    cls = spec.classify_failure(prop, name, pr, m, o_idx)
                     # positional prefixes (m0: / fn1: / param2:) are not part of the role of a failing input
                     rname = re.sub(r'(?:^|(?<=:))(?:m|fn|param)\d*:', '', name)
                     role = f'{prop}:{rname}' + (f'/{cls}' if cls else '')
@@ -178,8 +178,14 @@ def concretize_case(prog, pr, model):
         conc = replay.concretize(prog, pr, model=model)
         pred = replay.predicted_flat(pr, conc)
         json.dumps([conc['item_flat'], pred])   # must be plain data (no solver terms left)
-        return dict(macro=conc['macro'], attr_src=conc['attr_src'], item_src=conc['item_src'], item_flat=conc['item_flat'], pred=pred,
+        case = dict(macro=conc['macro'], attr_src=conc['attr_src'], item_src=conc['item_src'], item_flat=conc['item_flat'], pred=pred,
                     kind=pr.kind)
+        if 'twin_attr_src' in conc and model is not None:
+            pred2 = replay.predicted_flat(pr, conc, pr.notes['meta_out2'])
+            json.dumps(pred2)
+            case['twin'] = dict(macro='entrait', attr_src=conc['twin_attr_src'], item_src=conc['item_src'], item_flat=conc['item_flat'],
+                                pred=pred2, kind='ok')
+        return case
     except Exception as e:
         return dict(error=f'{type(e).__name__}: {e}')
 
@@ -195,6 +201,15 @@ def run_slices(mir_path, repo, slices, props, max_paths, time_budget, procs=16):
 def replay_cases(cases, name):
     """cases: list of dicts from concretize_case. Expands all with the real macro and compares predicted with recorded.
     -> list of (status, info): status in reproduced | mismatch | norecord | panic-reproduced | error"""
+    twins = [(i, c['twin']) for i, c in enumerate(cases) if c and c.get('twin')]
+    if twins:
+        # metamorphic counterexamples: the invocation as written AND its canonical spelling must both expand as predicted
+        n = len(cases)
+        out, info = replay_cases(list(cases) + [dict(t, twin=None) for _, t in twins], name)
+        for k, (i, _) in enumerate(twins):
+            if out[i][0] == 'reproduced' and out[n + k][0] != 'reproduced':
+                out[i] = ('mismatch', dict(twin=out[n + k][1]))
+        return out[:n], info
     good = [c for c in cases if c and 'error' not in c]
     recs, log, dt = replay.expand_batch(good, name)
     by_input = {}
